@@ -207,7 +207,8 @@ def run(ctx):
             # stored list re-used: accept only under the non-empty-buffer guard + builder post-dominance (R3')
             ty = (prog.fns[fk].get("impl") or {}).get("self")
             g = guards_of(b, bb)
-            nonempty = any(d.k == "call" and d.a[0].endswith("String::is_empty") and self_path(d.a[1][0]) == (roles[ty]["buffer"],) and pol is False
+            nonempty = any(d.k == "call" and d.a[0].endswith("::is_empty")
+                           and self_path(peel_conv(d.a[1][0])) == (roles[ty]["buffer"],) and pol is False
                            for (d, pol, s) in g)
             if nonempty and _builder_postdominates(prog, roles, ty, mods, r3, key):
                 r3.assume("A-cfg: options do not change while a word is being composed (update-engine is only in contract while idle)")
